@@ -121,7 +121,7 @@ def showRes : Res → String
   | .append (.rejected _ true) => "no_known"
   | .append (.rejected _ false) => "no"
   | .copy (.ok _ []) => "ok_-"
-  | .copy (.ok a b) => s!"ok_{showNats a}>{showNats b}"      -- `a` may be empty (`moveSrcUids`): `ok_>2`
+  | .copy (.ok a b) => s!"ok_{showNats a}>{showNats b}"
   | .copy (.no _) => "no"
   | .copy .nosel => "nosel"
   | .status none => "ok"
